@@ -767,3 +767,66 @@ func c16mergeReadsBeforeMoving(c *an.Ctx) {
 	}
 	f.NeverAfter(r, moves, reads, "no read of slot endLoc after the tail was moved")
 }
+
+func init() {
+	old := All["C16"].Run
+	All["C16"].Run = func(c *an.Ctx) {
+		old(c)
+		c16optionalFieldsStayOptional(c)
+	}
+	All["C16"].Rules += " R10"
+	addLevel("C16", "ALTER RETENTION POLICY applies only the durations the command carries: a protobuf getter (0 for an absent field) of an optional duration / replica field is read only under the field's presence test.")
+}
+
+// c16optionalFieldsStayOptional — C16.R10.  The update command has optional fields; Get<F>() returns
+// 0 when F is absent, and 0 means "default for the retention duration" to UpdateRetentionPolicy.
+// Reading such a getter without testing `v.F != nil` turns "leave as it is" into "reset".
+func c16optionalFieldsStayOptional(c *an.Ctx) {
+	r := c.Rule("C16.R10", "K-GUARD", metaPkg+":ApplyUpdateRetentionPolicy — Get<Duration|ReplicaN>() of an optional field only under `v.<field> != nil`")
+	f := fn(r, metaPkg+":ApplyUpdateRetentionPolicy")
+	if f == nil {
+		return
+	}
+	n := 0
+	ast.Inspect(f.Body, func(m ast.Node) bool {
+		ce, ok := m.(*ast.CallExpr)
+		if !ok || len(ce.Args) != 0 {
+			return true
+		}
+		sel, ok := ce.Fun.(*ast.SelectorExpr)
+		if !ok || !strings.HasPrefix(sel.Sel.Name, "Get") {
+			return true
+		}
+		field := strings.TrimPrefix(sel.Sel.Name, "Get")
+		if !strings.HasSuffix(field, "Duration") && field != "ReplicaN" {
+			return true
+		}
+		// the command's field of that name is a pointer (optional)
+		t := f.Info.TypeOf(sel.X)
+		if t == nil {
+			return true
+		}
+		if p, ok := t.Underlying().(*types.Pointer); ok {
+			t = p.Elem()
+		}
+		st, ok := t.Underlying().(*types.Struct)
+		if !ok {
+			return true
+		}
+		optional := false
+		for i := 0; i < st.NumFields(); i++ {
+			if st.Field(i).Name() == field {
+				_, optional = st.Field(i).Type().Underlying().(*types.Pointer)
+			}
+		}
+		if !optional {
+			return true
+		}
+		n++
+		one := f.Find(an.MNode("call "+sel.Sel.Name, func(g *an.Fn, k ast.Node) bool { return k == ast.Node(ce) }))
+		f.Guarded(r, one, sel.Sel.Name+"() only when the field is present", an.AtomLike(`^nil==`+regexp.QuoteMeta(f.Canon(sel.X))+`\.`+field+`$`, false))
+		return true
+	})
+	r.AddSites(n)
+	r.Floor(3, "getters of optional duration/replica fields")
+}
